@@ -223,3 +223,9 @@ def run(ctx):
     if len(whiles) != 1:
         raise AnalysisError("C17.TERM", pr.qualname, "unfold loop not found")
     check_cursor_loop(ctx, "C17.TERM", pr, cfg, whiles[0])
+
+    # ---------------------------------------------------------------- C17.ARGS
+    from ..rules_common import check_call_arguments
+    check_call_arguments(ctx, "C17.ARGS", "C17")
+
+
